@@ -9,7 +9,7 @@ Labelled bounded.
 from pyvc.units import Native
 
 UNITS = [
-    Native("pickle round trip keeps the id-set invariants", ["C23"], "native.c23:pickle_roundtrip", kind="bounded",
+    Native("pickle round trip keeps the id-set invariants", ["C23", "C24"], "native.c23:pickle_roundtrip", kind="bounded",
            bound="every accepted hierarchy of the C05 generator with <= 3 (thorough: 4) classes (3-level chains, "
                  "diamonds) with and without methods + the 43 recorded meta-models of dev/test_data (thorough: also "
                  "aas_core_meta.v3); all *_id_set attributes of all reachable objects and all is_subclass_of pairs",
